@@ -10,6 +10,33 @@ E2 = "explicit-state breadth-first search over operation histories on the implem
 E3 = "stateless schedule / crash-point exploration with a deviation bound on the implementation"
 
 CHECKS = {
+    "C01": dict(engine="E1", cat="model_checking", design="4/C01",
+                technique="bounded exhaustive enumeration over the full schema vocabulary and all small tree shapes, "
+                          "with every single-rule mutation; oracle from an independent XML reading of the schema",
+                text="Every non-reserved tag of every bundled schema (from an independent xml.etree model) in every "
+                     "spelling and 6 contexts must validate without error; every tag-level single-rule mutation, every "
+                     "tree up to the size bound over a collision pool (duplicates => TAG_EXPRESSION_REPEATED), every "
+                     "delimiter / character mutation at every position and reserved-tag templates must be reported with the "
+                     "specification code of the rule; both placeholder settings; two validation entry points.",
+                note="expected codes are my reading of the HED specification (either code accepted where two apply); "
+                     "trees above the bound and value literals outside the finite menu are not covered; warnings not judged"),
+    "C03": dict(engine="E1", cat="model_checking", design="4/C03",
+                technique="complete enumeration of the schema vocabulary x spellings x case x prefix x suffix against an "
+                          "independent XML model",
+                text="For every node of every bundled schema (plus prefixed loads, the merged multi-library load and a "
+                     "generated schema) every suffix-path spelling in 4 case variants with and without value/extension is "
+                     "identified as the expected node with the expected canonical long/short forms; long/short conversion "
+                     "is checked to be mutually inverse and idempotent; the bulk DataFrame interface must agree.",
+                note="vocabulary complete; suffix/case menus finite; non-ASCII case mappings that do not round-trip excluded"),
+    "C04": dict(engine="E1", cat="model_checking", design="4/C04",
+                technique="bounded exhaustive enumeration of trees x all spelling/spacing/order rewrites, differential "
+                          "comparison of error-code multisets on the implementation",
+                text="Every tree up to the bound over a 9-leaf pool of valid and invalid leaves is validated and compared "
+                     "with every single-leaf respelling, spacing variant and sibling permutation of it; the duplicate family "
+                     "(every small subtree, every recursive reordering, 0-2 extra siblings, every arrangement, top level and "
+                     "nested) must report the repetition in every arrangement.",
+                note="pure differential (no hand-written expectation); only error-severity codes; value text is never "
+                     "respelled (the statement speaks of tag names)"),
     "C02": dict(engine="E1", cat="model_checking", design="4/C02",
                 technique="exhaustive enumeration of all token strings up to a length bound, reference-parser oracle",
                 text="Every string of <= N tokens over the delimiter alphabet (plus literals discovered in the tokenizer "
